@@ -1,6 +1,7 @@
 // C14 harness: runs generated stylesheets through the real library (XalanTransformer, default
 // XalanSourceTree source, XML output) in-process.
-// stdin : one case per line:  <hex(utf-8 stylesheet)> <hex(utf-8 source document)>
+// stdin : one case per line:  <hex(utf-8 stylesheet)> <hex(utf-8 source document)> [<file name>=<hex(utf-8 module)>]*
+//         the optional modules are written to the directory given as argv[1] (imported with xsl:import href="<file name>")
 // stdout: one reply per line: OK <hex(utf-8 result)>   |   ERR <hex(message)>
 #include <xalanc/Include/PlatformDefinitions.hpp>
 #include <xercesc/util/PlatformUtils.hpp>
@@ -9,6 +10,8 @@
 #include <xalanc/XSLT/XSLTResultTarget.hpp>
 #include <iostream>
 #include <sstream>
+#include <fstream>
+#include <vector>
 #include <string>
 
 using xercesc::XMLPlatformUtils;
@@ -29,21 +32,33 @@ static std::string hex(const std::string& s) {
     return r.empty() ? "-" : r;
 }
 
-int main() {
+int main(int argc, char** argv) {
+    const std::string dir = argc > 1 ? argv[1] : ".";
     XMLPlatformUtils::Initialize();
     XalanTransformer::initialize();
     {
         std::string line;
         while (std::getline(std::cin, line)) {
-            size_t sp = line.find(' ');
-            if (sp == std::string::npos) { std::cout << "ERR " << hex("bad request") << "\n"; continue; }
-            std::string xsl = unhex(line.substr(0, sp)), xml = unhex(line.substr(sp + 1));
+            std::vector<std::string> f;
+            {
+                std::istringstream ls(line);
+                std::string w;
+                while (ls >> w) f.push_back(w);
+            }
+            if (f.size() < 2) { std::cout << "ERR " << hex("bad request") << "\n"; continue; }
+            std::string xsl = unhex(f[0]), xml = unhex(f[1]);
+            for (size_t k = 2; k < f.size(); ++k) {
+                size_t eq = f[k].find('=');
+                if (eq == std::string::npos) continue;
+                std::ofstream o((dir + "/" + f[k].substr(0, eq)).c_str(), std::ios::binary | std::ios::trunc);
+                o << unhex(f[k].substr(eq + 1));
+            }
             std::istringstream xmlIn(xml), xslIn(xsl);
             std::ostringstream out;
             XalanTransformer t;
             XSLTInputSource src(&xmlIn), sty(&xslIn);
             src.setSystemId(xalanc::XalanDOMString("file:///c14/in.xml").c_str());
-            sty.setSystemId(xalanc::XalanDOMString("file:///c14/in.xsl").c_str());
+            sty.setSystemId(xalanc::XalanDOMString((std::string("file://") + dir + "/main.xsl").c_str()).c_str());
             XSLTResultTarget res(out);
             int rc = t.transform(src, sty, res);
             if (rc == 0) std::cout << "OK " << hex(out.str()) << "\n";
